@@ -892,3 +892,71 @@ mut("c12-quiet-closure-verdict", ["C12"], [(WM, '''				batch.errChan <- result.e
 				log.Debugf("Canceled batch %v", batchNum)
 				continue Loop
 ''')], [])
+
+# ---- C11 ----
+MG = "blockntfns/manager.go"
+mut("c11-close-before-wait", ["C11"], [(MG, '''		close(s.quit)
+		s.wg.Wait()
+		close(s.ntfnChan)''', '''		close(s.quit)
+		close(s.ntfnChan)
+		s.wg.Wait()''')], ["C11.O2"])
+mut("c11-register-before-backlog", ["C11"], [(MG, '''	for _, block := range blocks {
+		m.notifySubscriber(sub, block)
+	}
+''', '''	m.subscribers[sub.id] = sub
+	for _, block := range blocks {
+		m.notifySubscriber(sub, block)
+	}
+''')], ["C11.O1"])
+mut("c11-notify-no-quit", ["C11"], [(MG, '''	select {
+	case sub.ntfnQueue.ChanIn() <- block:
+	case <-sub.quit:
+	case <-m.quit:
+		return
+	}''', '''	sub.ntfnQueue.ChanIn() <- block''')], ["C11.W1"])
+mut("c11-notify-only-mgr-quit", ["C11"], [(MG, '''	case sub.ntfnQueue.ChanIn() <- block:
+	case <-sub.quit:
+	case <-m.quit:''', '''	case sub.ntfnQueue.ChanIn() <- block:
+	case <-m.quit:''')], ["C11.W1"])
+mut("c11-cancel-outside-handler", ["C11"], [(MG, '''func (m *SubscriptionManager) cancelSubscription(sub *newSubscription) {
+	select {''', '''func (m *SubscriptionManager) cancelSubscription(sub *newSubscription) {
+	delete(m.subscribers, sub.id)
+	select {''')], ["C11.R1"])
+mut("c11-stop-before-join", ["C11"], [(MG, '''	close(m.quit)
+	m.wg.Wait()
+
+	var wg sync.WaitGroup
+	wg.Add(len(m.subscribers))''', '''	close(m.quit)
+
+	var wg sync.WaitGroup
+	wg.Add(len(m.subscribers))''')], ["C11.R1"])
+mut("c11-backlog-from-zero", ["C11"], [(MG, '''	blocks, currentHeight, err := m.ntfnSource.NotificationsSinceHeight(
+		sub.bestHeight,
+	)''', '''	blocks, currentHeight, err := m.ntfnSource.NotificationsSinceHeight(
+		sub.bestHeight + 1,
+	)''')], ["C11.O1"])
+mut("c11-cancel-no-once", ["C11"], [(MG, '''	s.canceled.Do(func() {
+		s.ntfnQueue.Stop()
+		close(s.quit)
+		s.wg.Wait()
+		close(s.ntfnChan)
+	})''', '''	s.ntfnQueue.Stop()
+	close(s.quit)
+	s.wg.Wait()
+	close(s.ntfnChan)''')], ["C11.O2"])
+mut("c11-direct-send-bypass", ["C11"], [(MG, '''	for _, block := range blocks {
+		m.notifySubscriber(sub, block)
+	}
+''', '''	for _, block := range blocks {
+		select {
+		case sub.ntfnChan <- block:
+		default:
+			m.notifySubscriber(sub, block)
+		}
+	}
+''')], ["C11.W1"])
+mut("c11-forwarder-no-done", ["C11"], [(MG, '''	go func() {
+		defer sub.wg.Done()
+
+		for {''', '''	go func() {
+		for {''')], ["C11.W1"])
